@@ -1,3 +1,4 @@
+from harness import implrun
 from harness import core, gens, scen, sched
 from harness.scen import call, LOOK_TO, GO
 
@@ -209,10 +210,28 @@ class C19(scen.WorldProp):
             t_sel = t0 + (3 + rng.uniform(1, 5) * row_t if rng.random() < 0.6 else rng.uniform(0.2, 3 + 2 * row_t))
             t_stop = max(t_sel, t0 + 3 + 3 * row_t) + rng.uniform(0.5, 2) * row_t
             t1 = t_stop + 1.0 + rng.random()
-            events += [[t_sel, "msg", method_msg(s2)], [t_stop, "msg", {"m": "stop_touch"}],
+            sel = method_msg(s2)
+            complib = None
+            if rng.random() < 0.35:
+                # the selection is a composition on CompLib, referred to the way Ringing Room passes it on: the
+                # address as the user pasted it, a private one with its access key, perhaps a substituted method
+                comp = gens.rand_comp_spec(rng, stage=rng.choice([4, 6, N]), calls=False, nrows=rng.randint(4, 9))
+                s2 = comp["stage"]
+                cid = rng.randint(10000, 99999)
+                key = "".join(rng.choice("0123456789abcdef") for _ in range(40)) if rng.random() < 0.6 else None
+                sub = rng.randint(10000, 40000) if rng.random() < 0.4 else None
+                other = gens.rand_comp_spec(rng, stage=s2, calls=False, nrows=5)
+                complib = {"id": cid, "key": key, "text": implrun.comp_payload(other if sub else comp),
+                           "subst": {str(sub): implrun.comp_payload(comp)} if sub else {}}
+                q = ([f"accessKey={key}"] if key else []) + ([f"substitutedmethodid={sub}"] if sub else [])
+                url = rng.choice(["https://complib.org/composition/", "complib.org/composition/",
+                                  "https://www.complib.org/composition/"]) + str(cid) + ("?" + "&".join(q) if q else "")
+                sel = {"m": "row_gen", "json": {"type": "composition", "url": url}, "model_gen": comp}
+                plan.update(comp=comp)
+            events += [[t_sel, "msg", sel], [t_stop, "msg", {"m": "stop_touch"}],
                        [t1 - 0.4, "msg", {"m": "global_state", "state": [True] * N}],     # bells set at hand
                        call(t1, LOOK_TO)]
-            if rng.random() < 0.4:
+            if complib is None and rng.random() < 0.4:
                 # between the touches the tower shrinks below the selection (which is discarded), grows back, the
                 # bells are given to Wheatley again and the very same selection is made once more: it must be rung
                 small = max(1, min(s2 - 1, rng.choice([3, 4, 5])))
@@ -253,6 +272,8 @@ class C19(scen.WorldProp):
               "bot": scen.bot_cfg({"type": "placeholder"}, up_down_in=True, stop_at_rounds=False, user_name="Wheatley",
                                   server_id=rng.randint(1, 9)),
               "rhythm": scen.rhythm_cfg("wait", inertia=1.0, peal_speed=ps)}
+        if plan.get("comp"):
+            sc["complib"] = complib
         return {"k": "world", "scenario": sc, "plan": plan}
 
     def stop_with_humans(self, rng):
@@ -401,7 +422,7 @@ class C19(scen.WorldProp):
         if req["k"] == "sched":
             return "sched:" + req["pair"]
         plan = req["plan"]
-        return "session:" + ("speed-after-hold-up" if "held" in plan else "stop+humans" if "humans" in plan else "second" if "second" in plan else "speed" if "speed" in plan else
+        return "session:" + ("speed-after-hold-up" if "held" in plan else "stop+humans" if "humans" in plan else "second-composition" if "comp" in plan else "second" if "second" in plan else "speed" if "speed" in plan else
                              "malformed" if "malformed" in plan else "long" if "long" in plan else "stop")
 
     def nontrivial(self, req, reply):
@@ -530,6 +551,21 @@ class C19(scen.WorldProp):
             # (a selection that is too big for the tower is dropped when the bells are set at hand before the next
             # Look To - the tower's state arrives, `_on_size_change` looks at the queue - and the method rung
             # before is rung again)
+            if plan.get("comp"):
+                comp = plan["comp"]
+                st = comp["stage"]
+                body = [[gens.BELLS.index(c) + 1 for c in r[0]] + list(range(st + 1, N + 1)) for r in comp["rows"]]
+                nsr = next(i for i, r in enumerate(body) if r != body[0])
+                m = next((i for i, r in enumerate(rows2) if r != list(range(1, N + 1))), None)
+                if len(rows2) >= 5 and m is None:
+                    return (f"touch 2 is {len(rows2)} rows of rounds: the composition selected during touch 1 "
+                            f"({req['scenario']['events'] and [e[2]['json']['url'] for e in req['scenario']['events'] if e[2].get('m') == 'row_gen' and e[2]['json'].get('type') == 'composition'][0]}) was not rung")
+                if m is not None:
+                    for j in range(min(len(rows2) - m, len(body) - nsr)):
+                        if rows2[m + j] != body[nsr + j]:
+                            return (f"touch 2 row {m + j} = {rows2[m + j]}, the composition selected during touch 1 has "
+                                    f"{body[nsr + j]} there")
+                return None
             s2 = plan["second"] if plan["second"] <= N else plan["first"]
             want2 = [list(range(1, N + 1))] * 2 + [r + list(range(s2 + 1, N + 1)) for r in plain_rows(s2, 30)]
             for i, r in enumerate(rows2):
